@@ -67,6 +67,16 @@ def Stack.restart (s : Stack) : Stack := Stack.build s.chained s.base
 /-- the repair path (`insecureStore` of CorrectPastBeacons) writes to the base store directly -/
 def Stack.rawPut (s : Stack) (b : Beacon) : Stack := { s with base := Bolt.put s.base b }
 
+/-- a daemon start: `NewHandler` first puts the genesis beacon into the base store, then the wrappers are rebuilt -/
+def Stack.restartG (s : Stack) (seed : Bytes) : Stack := Stack.build s.chained (Bolt.put s.base (genesis seed))
+
+/-- a `Put` whose write fails below the wrappers (e.g. the context is cancelled when it reaches the back-end): the
+append/scheme checks run, nothing is stored and — as coded — neither wrapper advances its cached head -/
+def Stack.putFailing (s : Stack) (b : Beacon) : Stack × PutRes :=
+  match (s.put b).2 with
+  | .ok => (s, .badRound)     -- reported by the driver as "err-write"; the state is unchanged
+  | r => (s, r)
+
 inductive Op where
   | put (b : Beacon)
   | restart
